@@ -114,7 +114,8 @@ def _shard(args) -> Dict[str, Any]:
                     for val in range(256):
                         d = bytearray(base)
                         d[p] = val
-                        cls, v = judge(bytes(d), ADDR, deep=False, callbacks=False)
+                        # the architecture callbacks see every variant of the longest encodings at one address
+                        cls, v = judge(bytes(d), ADDR, deep=False, callbacks=callbacks and ln >= 6)
                         sweep_ev += 1
                         if cls == "accepted":
                             acc += 1
